@@ -20,8 +20,8 @@ MAX_LINES = 12
 PROP_ENTRIES = {
     'C01': ('try_new', 'new', 'into_inner'), 'C02': ('try_new', 'new', 'into_inner'), 'C07': ('try_new',),
     'C03': ('TryFrom', 'TryFrom<&str>', 'From', 'FromStr', 'Default'),
-    'C05': ('try_new', 'new', 'TryFrom', 'TryFrom<&str>', 'From', 'FromStr', 'Default', 'validity'),
-    'C04': ('Deserialize',), 'C10': ('Serialize', 'RoundTrip'), 'C16': ('MessageTruth', 'MessageNaming', 'Embedding'), 'C06': ('FromStr',), 'C09': ('Arbitrary',), 'C14': ('ArbitrarySurjective',), 'C11': ('canonical',), 'C13': ('AsRef', 'Deref', 'Borrow', 'Borrow<str>', 'Into', 'into_inner'),
+    'C05': ('try_new', 'new', 'TryFrom', 'TryFrom<&str>', 'From', 'FromStr', 'Default', 'validity', 'DeserializeInPlace'),
+    'C04': ('Deserialize', 'DeserializeInPlace'), 'C10': ('Serialize', 'RoundTrip'), 'C16': ('MessageTruth', 'MessageNaming', 'Embedding'), 'C06': ('FromStr',), 'C09': ('Arbitrary',), 'C14': ('ArbitrarySurjective',), 'C11': ('canonical',), 'C13': ('AsRef', 'Deref', 'Borrow', 'Borrow<str>', 'Into', 'into_inner'),
 }
 
 
